@@ -69,11 +69,50 @@ def diff(a, b, tol=1e-9, path=""):
     return None if a == b else (path, a, b)
 
 
+def diff_all(a, b, tol=1e-9, path="", out=None, cap=60):
+    """every leaf difference between two canonical structures -> [(path, a, b), ...] (bounded)"""
+    out = [] if out is None else out
+    if len(out) >= cap:
+        return out
+    if isinstance(a, dict) and isinstance(b, dict):
+        if sorted(a) != sorted(b):
+            out.append((path + "/keys", sorted(a), sorted(b)))
+        for k in sorted(set(a) & set(b)):
+            diff_all(a[k], b[k], tol, f"{path}/{k}", out, cap)
+        return out
+    if isinstance(a, list) and isinstance(b, list) and not (isinstance(a, float) or isinstance(b, float)):
+        if len(a) != len(b):
+            out.append((path + "/len", len(a), len(b)))
+            return out
+        for i, (x, y) in enumerate(zip(a, b)):
+            diff_all(x, y, tol, f"{path}/{i}", out, cap)
+        return out
+    d = diff(a, b, tol, path)
+    if d:
+        out.append(d)
+    return out
+
+
+_NODE_CLASSES = ("root", "internal", "tip")
+
+
 def field_of(path):
-    """first component of a diff path: the observed field that differs (used in signatures)"""
+    """the observed field a diff path belongs to (used in signatures).
+    trees: <root|internal|tip>.<name|length|params|children>; annotations are split into `.count` (features vanished /
+    appeared) and `.content` (a feature that is still there denotes something else)"""
     parts = [p for p in path.split("/") if p]
-    f = parts[0] if parts else "value"
-    return "annotations" if f in ("features", "num_features", "seq_features", "db") else f
+    if not parts:
+        return "value"
+    f = parts[0]
+    if f in _NODE_CLASSES:
+        rest = [p for p in parts[1:] if not p.lstrip("-").isdigit()]
+        return f + "." + (rest[0] if rest else "nodes")
+    if f in ("features", "seq_features", "db", "num_features"):
+        tail = parts[-1]
+        if f == "num_features" or tail == "len" or (f == "db" and "n" == tail):
+            return "annotations.count"
+        return "annotations.content"
+    return f
 
 
 # --------------------------------------------------------------------------
@@ -211,21 +250,41 @@ def obs_seqsdata(sd):
     return dict(cls="SeqsData", names=list(sd.names), seqs={n: sd.get_seq_str(seqid=n) for n in sd.names}, alphabet=list(sd.alphabet), reversed=canon(dict(sd.reversed)) if hasattr(sd, "reversed") else None)
 
 
+def _node_obs(e):
+    return dict(
+        name=None if e.name is None else str(e.name),
+        length=canon(e.length),
+        # every params entry (length is observed on its own; a None length entry is the default state)
+        params=canon({k: v for k, v in e.params.items() if k != "length"}),
+        children=len(e.children),
+    )
+
+
 def obs_tree(t):
-    tips = sorted(t.get_tip_names())
-    edges = {}
-    for e in t.get_edge_vector(include_root=True):
-        edges[str(e.name)] = canon({k: v for k, v in e.params.items() if v is not None})
+    """per node, by class (root / internal / tip) in preorder: name, length, every params entry, number of children;
+    plus the newick with distances, the name-free shape, and tip-to-tip distances when every non-root edge has a length"""
+    internal, tips = [], []
+    for e in t.preorder(include_self=False):
+        (tips if e.is_tip() else internal).append(_node_obs(e))
+
+    def shape(e):
+        return "(" + ",".join(shape(c) for c in e.children) + ")" if e.children else "t"
+
     o = dict(
         cls=type(t).__name__,
-        newick=t.get_newick(with_distances=True, with_node_names=True),
-        tips=tips,
-        edges=edges,
-        children={str(e.name): [str(c.name) for c in e.children] for e in t.get_edge_vector(include_root=True)},
+        root=_node_obs(t),
+        internal=internal,
+        tip=tips,
+        shape=shape(t),
+        tip_names=[str(n) for n in t.get_tip_names()],
+        newick=_try(lambda: t.get_newick(with_distances=True)),
+        newick_named=_try(lambda: t.get_newick(with_distances=True, with_node_names=True)),
     )
     if all(e.length is not None for e in t.get_edge_vector(include_root=False)) and len(tips) > 1:
-        d = t.get_distances()
-        o["dists"] = {f"{a}|{b}": float(v) for (a, b), v in sorted(d.items())}
+        d = _try(lambda: t.get_distances())
+        o["dists"] = {f"{a}|{b}": float(v) for (a, b), v in sorted(d.items())} if isinstance(d, dict) and "exc" not in d else d
+    else:
+        o["dists"] = None
     return o
 
 
@@ -239,6 +298,7 @@ def obs_table(t):
         legend=t.legend,
         index_name=t.index_name,
         types={c: t.columns[c].dtype.kind for c in t.header},
+        formats=canon({k: (v if isinstance(v, str) else "callable") for k, v in t._column_templates.items()}),
         digits=t._digits,
         space=t.space,
         missing=t._missing_data,
